@@ -63,6 +63,8 @@ class LSkel(Skel):
                 ty = re.sub(r".*Result<([^,>]*).*", r"\1", e0["ty"]).rsplit("::", 1)[-1]
                 return inner + [("parse", ty, argkey(e0["args"][0]))]
             d = e0.get("def") or ""
+            if any(x in d for x in CRATE_MARKS) and m in ("err", "parse_error"):
+                return inner + [("err",)]          # an error value is built (however it is spelled): `return err` and `return ok` must differ
             if any(x in d for x in CRATE_MARKS) and not d.endswith(("::clone", "::to_owned")):
                 return inner + [("call", m) + tuple(argkey(a) for a in e0["args"])]
             return inner
@@ -72,6 +74,9 @@ class LSkel(Skel):
             inner = []
             for a in e0["args"]:
                 inner += self.ops(a)
+            if (nm == "Err" and len(e0["args"]) == 1 and strip(e0["f"]).get("k") == "Path" and strip(e0["f"])["path"].get("defkind", "").startswith("Ctor")) \
+                    or (any(x in d for x in CRATE_MARKS) and nm in ("err", "parse_error")):
+                return inner + [("err",)]
             if nm == "branch" and len(e0["args"]) == 1:
                 if strip(e0["args"][0]).get("inlined_from"):
                     return inner          # `new_helper(..)?`: the helper's body stands here, its own returns are the exits
